@@ -107,7 +107,7 @@ HdrOf(f) == [present |-> TRUE, size |-> f.n, dtype_ok |-> TRUE, descr |-> f.desc
 Read(r) ==
     /\ r \in Readers
     /\ UNCHANGED file
-    /\ res' = IF file.st = "none" THEN AnyRes("read", r)
+    /\ res' = IF file.st \in {"none", "free"} THEN AnyRes("read", r)
               ELSE IF r \in SelfReaders
                    THEN IF file.st = "hdr"
                         THEN [op |-> "read", entry |-> r, err |-> "none", descr |-> file.descr, rows |-> file.rows,
@@ -116,12 +116,51 @@ Read(r) ==
                    ELSE [op |-> "read", entry |-> r, err |-> "none", descr |-> file.descr,
                          rows |-> file.rows, n |-> RowsBySize(file), hdr |-> NoHdr]
 
+\* ---- the history family  Write ; (Append | Reject)* ; Read  ------------------------------------------
+\* sf.write(t) on a handle that already wrote / a reopened 'r+' handle / sfile.write(append=True) /
+\* io.write(append=True) with rows of the file's own dtype: the table grows
+AppendRows(e, t) ==
+    /\ file.st = "hdr" /\ file.block = 1 /\ t.block = 1 /\ TableOK(t) /\ t.descr = file.descr
+    /\ file' = [file EXCEPT !.rows = @ \o t.rows, !.n = @ + t.n]
+    /\ res' = [NoRes("append") EXCEPT !.entry = e]
+\* a call that raises (an append of another dtype is refused with ValueError) is a stutter step on the file:
+\* the stored row count, the header and the rows are what they were
+Reject(e) ==
+    /\ UNCHANGED file
+    /\ res' = [NoRes("reject") EXCEPT !.entry = e, !.err = "rejected"]
+\* an append of another dtype that is NOT refused: this property does not say what the file holds then
+\* (C03 decides whether it had to be refused)
+AcceptOther(e) ==
+    /\ file.st = "hdr"
+    /\ file' = [file EXCEPT !.st = "free"]
+    /\ res' = [NoRes("append") EXCEPT !.entry = e]
+
+\* dtypes an append is tried with (kind of difference -> descr); every one differs from d
+FlipKind(f) == CASE f.kind = "i" -> [f EXCEPT !.kind = "u"]
+                 [] f.kind = "u" -> [f EXCEPT !.kind = "i"]
+                 [] f.kind = "f" -> [f EXCEPT !.kind = "i"]
+                 [] f.kind = "c" -> [f EXCEPT !.kind = "f", !.size = 8]
+                 [] f.kind = "b" -> [f EXCEPT !.kind = "i"]
+                 [] f.kind = "S" -> [f EXCEPT !.size = @ + 1]
+Renamed(d)  == [d EXCEPT ![1].name = "zz_renamed"]
+Variant(d, kind) ==
+    CASE kind = "type"  -> [d EXCEPT ![1] = FlipKind(d[1])]
+      [] kind = "order" -> IF \E i \in DOMAIN d : d[i].order # "na"
+                           THEN LET i == CHOOSE i \in DOMAIN d : d[i].order # "na" /\ \A j \in 1..(i - 1) : d[j].order = "na"
+                                IN [d EXCEPT ![i].order = IF d[i].order = "lt" THEN "gt" ELSE "lt"]
+                           ELSE Renamed(d)
+      [] kind = "name"  -> Renamed(d)
+      [] kind = "shape" -> [d EXCEPT ![1].shape = IF Len(@) < 3 THEN @ \o <<1>> ELSE <<>>]
+      [] kind = "fewer" -> IF Len(d) > 1 THEN SubSeq(d, 1, Len(d) - 1) ELSE Renamed(d)
+BadKinds == {"type", "order", "name", "shape", "fewer"}
+
 \* ---- theorems about the specification itself (checked by BinRoundTripMC) --------------------------
 ReadInv == (res.op = "read" /\ res.err = "none") =>
               /\ res.descr = file.descr /\ res.rows = file.rows /\ res.n = file.n
               /\ res.hdr.present => (res.hdr.size = file.n /\ res.hdr.descr = file.descr)
-SizeInv == file.st # "none" => (RowsBySize(file) = file.n /\ DescrOK(file.descr) /\ TableOK(file))
+SizeInv == file.st \in {"hdr", "raw"} => (RowsBySize(file) = file.n /\ DescrOK(file.descr) /\ TableOK(file))
 ReadsArePure == [][res'.op = "read" => file' = file]_brvars
+RejectIsStutter == [][res'.op = "reject" => file' = file]_brvars
 
 \* =====================================================================================================
 \* Acceptance of what the real code did (used by BinRoundTripTrace).  A record is
@@ -129,12 +168,30 @@ ReadsArePure == [][res'.op = "read" => file' = file]_brvars
 \*   w   = [err]                                                  the write call
 \*   obs = Seq([readers, err, descr, n, rows, hdr |-> [present, size, dtype_ok, descr, ents : Seq([k, v])]])
 \*         one element per distinct outcome; readers = the entry points that returned exactly it
-\*   raw = [seen : BOOLEAN, n, rows]       the last Len(rows)*itemsize bytes of the file, as row tokens
+\*   raw = [seen : BOOLEAN, n, rows]       the data region of the file, as row tokens
+\*   c.steps = Seq([descr, k, rows, out])  the appends tried after the first write, in order: k rows of dtype
+\*         descr, out = "ok" | "rejected" (what the call did); <<>> for a plain write / read-back cycle
 \* Every clause is named; a failing clause is reported as <<entry point, clause>>.
+\* the table the file holds after the history: a refused call is a stutter, an accepted append of the file's
+\* dtype adds its rows, an accepted append of another dtype leaves the rest unconstrained (free)
+RECURSIVE AfterSteps(_, _, _)
+AfterSteps(c, k, acc) ==
+    IF k > Len(c.steps) \/ acc.free THEN acc
+    ELSE LET s == c.steps[k] IN
+         AfterSteps(c, k + 1, IF s.out = "rejected" THEN acc
+                              ELSE IF s.descr = c.descr THEN [acc EXCEPT !.rows = @ \o s.rows]
+                              ELSE [acc EXCEPT !.free = TRUE])
+Expected(c) == AfterSteps(c, 1, [free |-> FALSE, rows |-> c.rows])
+StepsOK(c) == /\ c.steps # <<>> => (c.writer \in HdrWriters /\ c.block = 1)
+              /\ \A i \in DOMAIN c.steps : LET s == c.steps[i] IN
+                    /\ s.out \in {"ok", "rejected"} /\ s.k >= 1 /\ DescrOK(s.descr)
+                    /\ (s.descr = c.descr) => Len(s.rows) = s.k
+
 InScope(c) == /\ c.writer \in Writers /\ DescrOK(c.descr) /\ TableOK(c)
               /\ c.layout \in Layouts /\ (c.layout = "zerod" => c.n = 1)
               /\ (c.writer \in RawWriters) => (~c.hdr.given /\ c.hdr.ents = <<>>)
               /\ \A i, j \in DOMAIN c.hdr.ents : i # j => c.hdr.ents[i].k # c.hdr.ents[j].k
+              /\ StepsOK(c)
 
 ReadersFor(c) == IF c.writer \in HdrWriters THEN Readers ELSE GivenReaders
 
@@ -167,11 +224,15 @@ Agree(o1, o2) == /\ o1.descr = o2.descr /\ o1.rows = o2.rows /\ o1.n = o2.n
 \* the entry points of an observation the specification constrains for this case
 Constrained(c, o) == VRange(o.readers) \cap ReadersFor(c)
 
-Failing(c, w, obs, raw) ==
-    IF ~InScope(c) THEN {<<"harness", "out_of_scope">>}
-    ELSE IF w.err = "crashed" THEN {<<c.writer, "process_crashed">>}       \* the interpreter died during the cycle
-    ELSE IF w.err # "none" THEN {<<c.writer, "write_rejected">>}
-    ELSE UNION {{<<rd, cl>> : rd \in Constrained(c, obs[k]), cl \in ObsFailing(c, obs[k])} : k \in DOMAIN obs}
+\* c0: the case as written first; the clauses are evaluated against the table after the history
+Failing(c0, w, obs, raw) ==
+    IF ~InScope(c0) THEN {<<"harness", "out_of_scope">>}
+    ELSE IF w.err = "crashed" THEN {<<c0.writer, "process_crashed">>}       \* the interpreter died during the cycle
+    ELSE IF w.err # "none" THEN {<<c0.writer, "write_rejected">>}
+    ELSE IF Expected(c0).free THEN {}
+    ELSE LET c == IF c0.steps = <<>> THEN c0
+                  ELSE [c0 EXCEPT !.rows = Expected(c0).rows, !.n = Len(Expected(c0).rows)] IN
+         UNION {{<<rd, cl>> : rd \in Constrained(c, obs[k]), cl \in ObsFailing(c, obs[k])} : k \in DOMAIN obs}
          \cup (IF raw.seen /\ (raw.rows # c.rows \/ raw.n # c.n) THEN {<<c.writer, "raw_rows">>} ELSE {})
          \cup (IF /\ c.writer \in HdrWriters /\ c.hdr.given
                   /\ \E k \in DOMAIN obs : obs[k].err = "none" /\ VRange(obs[k].readers) \cap SelfReaders # {}
@@ -182,62 +243,4 @@ Failing(c, w, obs, raw) ==
          \cup UNION {{<<rd, "cross_entry">> : rd \in Constrained(c, obs[k])} : k \in {k \in DOMAIN obs :
                    /\ Constrained(c, obs[k]) # {} /\ obs[k].err = "none"
                    /\ \E m \in 1..(k - 1) : Constrained(c, obs[m]) # {} /\ obs[m].err = "none" /\ ~Agree(obs[m], obs[k])}}
-=====================================================================================================
-\* Acceptance of what the real code did (used by BinRoundTripTrace).  A record is
-\*   c   = [writer, layout, descr, n, block, rows (of the array as indexed), hdr |-> [given : BOOLEAN, ents : Seq([k, v, reserved])]]
-\*   w   = [err]                                                  the write call
-\*   obs = Seq([readers, err, descr, n, rows, hdr |-> [present, size, dtype_ok, descr, ents : Seq([k, v])]])
-\*         one element per distinct outcome; readers = the entry points that returned exactly it
-\*   raw = [seen : BOOLEAN, n, rows]       the last Len(rows)*itemsize bytes of the file, as row tokens
-\* Every clause is named; a failing clause is reported as <<entry point, clause>>.
-InScope(c) == /\ c.writer \in Writers /\ DescrOK(c.descr) /\ TableOK(c)
-              /\ c.layout \in Layouts /\ (c.layout = "zerod" => c.n = 1)
-              /\ (c.writer \in RawWriters) => (~c.hdr.given /\ c.hdr.ents = <<>>)
-              /\ \A i, j \in DOMAIN c.hdr.ents : i # j => c.hdr.ents[i].k # c.hdr.ents[j].k
-
-ReadersFor(c) == IF c.writer \in HdrWriters THEN Readers ELSE GivenReaders
-
-\* user keys the statement speaks about
-UserEnts(c) == {i \in DOMAIN c.hdr.ents : ~c.hdr.ents[i].reserved}
-
-HdrFailing(c, h) ==
-    (IF h.size = c.n THEN {} ELSE {"hdr_row_count"})
-    \cup (IF h.dtype_ok /\ h.descr = c.descr THEN {} ELSE {"hdr_dtype"})
-    \cup (IF \A i \in UserEnts(c) : \E j \in DOMAIN h.ents : h.ents[j].k = c.hdr.ents[i].k THEN {} ELSE {"hdr_key_missing"})
-    \cup (IF \A i \in UserEnts(c) : \A j \in DOMAIN h.ents :
-                 h.ents[j].k = c.hdr.ents[i].k => h.ents[j].v = c.hdr.ents[i].v THEN {} ELSE {"hdr_value"})
-
-TableFailing(c, o) ==
-    (IF FNames(o.descr) = FNames(c.descr) THEN {} ELSE {"field_names"})
-    \cup (IF FTypes(o.descr) = FTypes(c.descr) THEN {} ELSE {"field_types"})
-    \cup (IF FShapes(o.descr) = FShapes(c.descr) THEN {} ELSE {"subarray_shapes"})
-    \cup (IF FOrders(o.descr) = FOrders(c.descr) THEN {} ELSE {"byte_order"})
-    \cup (IF o.n = c.n THEN (IF o.rows = c.rows THEN {} ELSE {"row_bytes"}) ELSE {"row_count"})
-
-ObsFailing(c, o) ==
-    IF o.reader \notin ReadersFor(c) THEN {}                      \* the specification does not constrain it
-    ELSE IF o.err # "none" THEN {"unexpected_error"}
-    ELSE TableFailing(c, o)
-         \cup (IF o.reader \in SelfReaders
-               THEN (IF o.hdr.present THEN HdrFailing(c, o.hdr) ELSE {})     \* readers that return no header show none
-               ELSE {})
-
-\* a file written by any entry point reads identically through every other
-Agree(o1, o2) == /\ o1.descr = o2.descr /\ o1.rows = o2.rows /\ o1.n = o2.n
-                 /\ (o1.hdr.present /\ o2.hdr.present) => o1.hdr = o2.hdr
-
-Failing(c, w, obs, raw) ==
-    IF ~InScope(c) THEN {<<"harness", "out_of_scope">>}
-    ELSE IF w.err = "crashed" THEN {<<c.writer, "process_crashed">>}       \* the interpreter died during the cycle
-    ELSE IF w.err # "none" THEN {<<c.writer, "write_rejected">>}
-    ELSE UNION {{<<obs[k].reader, cl>> : cl \in ObsFailing(c, obs[k])} : k \in DOMAIN obs}
-         \cup (IF raw.seen /\ (raw.rows # c.rows \/ raw.n # c.n) THEN {<<c.writer, "raw_rows">>} ELSE {})
-         \cup (IF /\ c.writer \in HdrWriters /\ c.hdr.given
-                  /\ \E k \in DOMAIN obs : obs[k].err = "none" /\ VRange(obs[k].readers) \cap SelfReaders # {}
-                  /\ ~(\E k \in DOMAIN obs : obs[k].err = "none" /\ obs[k].hdr.present)
-               THEN {<<"harness", "header_not_observed">>} ELSE {})
-         \cup (IF ReadersFor(c) \subseteq {obs[k].reader : k \in DOMAIN obs} THEN {} ELSE {<<"harness", "reader_not_observed">>})
-         \cup {<<obs[k].reader, "cross_entry">> : k \in {k \in DOMAIN obs :
-                   /\ obs[k].reader \in ReadersFor(c) /\ obs[k].err = "none"
-                   /\ \E m \in 1..(k - 1) : obs[m].reader \in ReadersFor(c) /\ obs[m].err = "none" /\ ~Agree(obs[m], obs[k])}}
 =============================================================================
